@@ -180,6 +180,7 @@ func exploreSymStrings(w *W, judge func(ss []sym, m gramResult, r rendered, o pa
 			m := gramParse(ss)
 			if m.dontcare != "" {
 				w.Count("dontcare_strings", 1)
+				w.Count("dontcare: "+m.dontcare, 1)
 				return
 			}
 			w.Announce(r.src)
@@ -217,6 +218,7 @@ func init() {
 				}
 			})
 			c02Derivations(w)
+			c02Mutations(w)
 		},
 		replay: func(raw json.RawMessage) error {
 			var c symCase
@@ -324,8 +326,154 @@ func arithAsParens(ss []sym) ([]sym, bool) {
 }
 func c03Class(cl string, ss []sym, r rendered, m gramResult, o parseObs) string { return cl }
 
-func c02Derivations(w *W) {}
-func c03Mutations(w *W)   {}
+// c02Derivations: the derivation sets, each sentence in two layouts.
+func c02Derivations(w *W) {
+	seen := map[string]bool{}
+	derivations(w.thorough(), func(name string, texts []string) {
+		if !w.Mine() || w.TimeUp() {
+			return
+		}
+		key := strings.Join(texts, "\x00")
+		if seen[key] {
+			return
+		}
+		seen[key] = true
+		texts = append(append([]string{}, texts...), "\n") // a complete command line
+		ss := syms(texts...)
+		m := gramParse(ss)
+		if !m.ok {
+			w.Violation("generator", mkSymCase(ss), fmt.Sprintf("self-consistency: the grammar model rejects the generated sentence %q at symbol %d: %s", render(ss).src, m.errAt, m.errMsg))
+			return
+		}
+		lays := [][]sym{ss}
+		if ml := multiLine(ss, m); len(ml) > 0 {
+			lays = append(lays, ml)
+		}
+		for li, lay := range lays {
+			m := m
+			if li > 0 {
+				m = gramParse(lay)
+				if !m.ok {
+					w.Violation("generator", mkSymCase(lay), fmt.Sprintf("self-consistency: the grammar model rejects the multi-line layout %q at symbol %d: %s", render(lay).src, m.errAt, m.errMsg))
+					continue
+				}
+			}
+			if m.dontcare != "" {
+				w.Count("dontcare_strings", 1)
+				continue
+			}
+			for _, r := range []rendered{render(lay), renderTight(lay)} {
+				w.Announce(r.src)
+				o := runParse(r.src)
+				w.Count("states", 1)
+				w.Count("transitions", int64(len(lay)))
+				w.Count("evaluations", 1)
+				w.Count("derivation_sentences_"+name, 1)
+				w.Count("traces_validated_against_impl", 1)
+				w.Count("distinct_nontrivial", 1)
+				w.Sample(symCase{symTexts(lay), r.src})
+				if cl, d := c02Judge(lay, m, r, o); d != "" {
+					w.Violation(c02Class(cl, lay, r, m, o), symCase{symTexts(lay), r.src}, d)
+				}
+			}
+		}
+	})
+}
+// mutants enumerates every single-symbol deletion, insertion (each Σcore
+// symbol at each position), duplication and adjacent swap of the base
+// sentences (quick: the default-filled templates and top-level lists;
+// thorough: all of D(1,2)).
+func mutants(w *W, f func(ss []sym)) {
+	ins := syms(sigmaCore...)
+	seen := map[string]bool{}
+	derivations(w.thorough(), func(name string, texts []string) {
+		if !w.thorough() && name != "D0" && name != "W" && !(name == "D1" && len(texts) <= 12) {
+			return
+		}
+		if w.thorough() && (name == "D2" || name == "D3") {
+			return
+		}
+		key := strings.Join(texts, "\x00")
+		if seen[key] {
+			return
+		}
+		seen[key] = true
+		if !w.Mine() || w.TimeUp() {
+			return
+		}
+		base := syms(append(append([]string{}, texts...), "\n")...)
+		n := len(base)
+		buf := make([]sym, 0, n+1)
+		for i := 0; i < n; i++ {
+			// deletion
+			buf = append(append(buf[:0], base[:i]...), base[i+1:]...)
+			f(buf)
+			// duplication
+			buf = append(append(append(buf[:0], base[:i+1]...), base[i]), base[i+1:]...)
+			f(buf)
+			// adjacent swap
+			if i+1 < n {
+				buf = append(buf[:0], base...)
+				buf[i], buf[i+1] = buf[i+1], buf[i]
+				f(buf)
+			}
+			// insertion
+			for _, s := range ins {
+				buf = append(append(append(buf[:0], base[:i]...), s), base[i:]...)
+				f(buf)
+			}
+		}
+	})
+}
+
+func c03Mutations(w *W) {
+	mutants(w, func(ss []sym) {
+		if lexicallyEntangled(ss) {
+			return
+		}
+		m := gramParse(ss)
+		if m.dontcare != "" || m.ok {
+			return
+		}
+		r := render(ss)
+		w.Announce(r.src)
+		o := runParse(r.src)
+		w.Count("states", 1)
+		w.Count("transitions", int64(len(ss)))
+		w.Count("evaluations", 1)
+		w.Count("mutants_rejected_by_model", 1)
+		w.Count("traces_validated_against_impl", 1)
+		w.Count("distinct_nontrivial", 1)
+		if cl, d := c03Judge(ss, m, r, o); d != "" {
+			w.Violation(c03Class(cl, ss, r, m, o), mkSymCase(ss), d)
+		}
+	})
+}
+
+// c02Mutations: the mutants the grammar still derives are judged like any other accepted sentence.
+func c02Mutations(w *W) {
+	mutants(w, func(ss []sym) {
+		if lexicallyEntangled(ss) {
+			return
+		}
+		m := gramParse(ss)
+		if m.dontcare != "" || !m.ok {
+			return
+		}
+		r := render(ss)
+		w.Announce(r.src)
+		o := runParse(r.src)
+		w.Count("states", 1)
+		w.Count("transitions", int64(len(ss)))
+		w.Count("evaluations", 1)
+		w.Count("mutants_accepted_by_model", 1)
+		w.Count("traces_validated_against_impl", 1)
+		w.Count("distinct_nontrivial", 1)
+		if cl, d := c02Judge(ss, m, r, o); d != "" {
+			w.Violation(c02Class(cl, ss, r, m, o), mkSymCase(ss), d)
+		}
+	})
+}
 
 // lexicallyEntangled: an unterminated quote / expansion symbol is followed by
 // a symbol that contains its closing character, so the text no longer splits
